@@ -520,7 +520,9 @@ class SymReal(_SymBase):
     self.t = t
 
   def __hash__(self):
-    raise Unsupported('hash of a symbolic real')
+    # only meaningful for reals with finitely many feasible values (times on a
+    # grid); Fraction hashes agree with int / float hashes of equal numbers
+    return hash(explorer().concretize_real(self.t))
 
   def __float__(self):
     if _called_from_format():
@@ -918,6 +920,7 @@ class Explorer(object):
                max_paths=None, deadline=None):
     self.solver = z3.Solver()
     self.solver.set('timeout', timeout_ms)
+    self.timeout_ms = timeout_ms
     self.log = []
     if prefix:
       for val, payload in prefix:
@@ -948,6 +951,21 @@ class Explorer(object):
       self.solver.pop()
     else:
       r = self.solver.check()
+    if r == z3.unknown and 'interrupt' not in self.solver.reason_unknown():
+      # one retry with a six-fold time limit (a loaded machine, or a query just
+      # over the per-query limit) before the job is declared inconclusive
+      self.solver.set('timeout', 6 * self.timeout_ms)
+      try:
+        if extra is not None:
+          self.solver.push()
+          self.solver.add(extra)
+          r = self.solver.check()
+          self.solver.pop()
+        else:
+          r = self.solver.check()
+      finally:
+        self.solver.set('timeout', self.timeout_ms)
+      self.stats.retried_queries = getattr(self.stats, 'retried_queries', 0) + 1
     self.stats.solver_s += time.time() - t0
     self.stats.queries += 1
     if r == z3.unknown:
@@ -1037,6 +1055,31 @@ class Explorer(object):
         return v
     raise Unsupported('concretisation of an unbounded integer (more than %d '
                       'values)' % MAX_CONCRETIZE)
+
+  def concretize_real(self, term):
+    """Pins a real term that has finitely many feasible values (e.g. a time on
+    a grid k/4 with bounded integer k) to one of them, forking over all."""
+    import fractions  # pylint: disable=g-import-not-at-top
+    t = z3.simplify(term)
+    if z3.is_rational_value(t):
+      return fractions.Fraction(t.numerator_as_long(), t.denominator_as_long())
+    for _ in range(MAX_CONCRETIZE):
+      if self.pos < len(self.log):
+        v = self.log[self.pos].payload
+        if v is None:
+          raise Unsupported('replay divergence in concretize')
+      else:
+        if not self._check():
+          raise Unsupported('path condition unsat in concretize')
+        mv = self.solver.model().eval(t, model_completion=True)
+        if not z3.is_rational_value(mv):
+          raise Unsupported('non-rational model value in concretize_real')
+        v = (mv.numerator_as_long(), mv.denominator_as_long())
+      if self.branch(t == z3.RealVal(fractions.Fraction(v[0], v[1])),
+                     payload=v):
+        return fractions.Fraction(v[0], v[1])
+    raise Unsupported('concretisation of a real with more than %d feasible '
+                      'values' % MAX_CONCRETIZE)
 
   # -- harness-facing API
   def retained(self):
